@@ -110,6 +110,7 @@ inductive Cmd
   | cleanup (k : Kind)
   | ewrInsertLocal (e wr v : Nat)
   | ewrCleanupData (sys e wr : Nat)
+  | ewrAdd (e wr v sys : Nat)
 deriving DecidableEq, Repr, Inhabited
 
 /-- What a scripted body (or a top-level batch) can call. Entity arguments are raw ids. -/
